@@ -433,6 +433,26 @@ func mergeTrace(en *Env, cfg h.Cfg, t int) (merges, mok int) {
 			if e.Close() != "ok" || e.Open(nc) != "ok" {
 				return
 			}
+			if i == 0 && r.Intn(3) == 0 {
+				// the first call after the adopting restart is not a read: files indexed through the hint file have not
+				// been touched when it runs
+				switch r.Intn(4) {
+				case 0:
+					e.Merge()
+					merges++
+				case 1:
+					if e.Close() != "ok" || e.Open(nc) != "ok" {
+						return
+					}
+				case 2:
+					e.Delete(1 + r.Intn(nkeys))
+				default:
+					write(1)
+				}
+				if e.Dead {
+					return
+				}
+			}
 			e.Dump()
 			if i == 0 {
 				write(r.Intn(3))
